@@ -57,7 +57,26 @@ def body_collision():
     return C, {"child": "scalar", "children": "list"}
 
 
-BODIES = [body_plain, body_user_code, body_collision]
+def body_noncallable():
+    class D:
+        value: int = 0
+        with_value = classmethod(lambda cls, v: "cm")
+        update = property(lambda self: "prop")
+        reset = "a plain class attribute"
+    return D, {"value": "scalar"}
+
+
+def body_inherited_collision():
+    @spec_class(bootstrap=True)
+    class Base:
+        item: int = 0
+
+    class E(Base):
+        items: List[int] = []             # singular 'item' collides with the *inherited* attribute 'item'
+    return E, {"items": "list"}
+
+
+BODIES = [body_plain, body_user_code, body_collision, body_noncallable, body_inherited_collision]
 SCALAR = ["with_%s", "update_%s", "transform_%s", "reset_%s"]
 ELEMENT = ["with_%s", "update_%s", "transform_%s", "without_%s"]
 TOP = ["update", "transform", "reset"]
@@ -87,6 +106,9 @@ def check(bi):
     for k in ("__spec_class_init__", "__spec_class_repr__", "__spec_class_eq__"):
         if not hasattr(dec, k):
             return "%s.%s is not reachable" % (name, k)
+    if bi == 4:
+        managed = dict(managed)
+        SINGULAR["items"] = "items_item"
     # exactly the documented helpers
     expected = set(TOP)
     for a, kind in managed.items():
@@ -99,18 +121,27 @@ def check(bi):
     if missing:
         return "%s lacks the documented helpers %r" % (name, sorted(missing))
     extra = {k for k in helper_like if k not in expected}
-    if extra:
+    if extra and bi != 4:
         return "%s gained undocumented attributes %r" % (name, sorted(extra))
     if any(k.startswith(("with__private", "update__private")) for k in after):
         return "%s: helpers were generated for a private attribute" % name
     # first use of every helper (lazy descriptors dissolve into functions) does not disturb user code
     inst = dec() if bi != 1 else dec(x=2)
     for h in sorted(expected):
-        getattr(inst, h)
+        if not isinstance(before.get(h), property):
+            getattr(inst, h)
     again = dict(dec.__dict__)
     for k, v in before.items():
         if callable(v) and k in again and again[k] is not v:
             return "%s.%s was replaced on first use of the helpers" % (name, k)
+    if bi == 4:
+        e = dec()
+        r = e.with_item(5)
+        if getattr(r, "item", None) != 5 or r.items != []:
+            return "E(Base).with_item(5) gives item=%r, items=%r: the element helper of `items` shadows the inherited attribute's scalar helper" % (getattr(r, "item", None), r.items)
+        if not hasattr(dec, "with_items_item"):
+            return "E(Base): no with_items_item fallback for the colliding singular name"
+        return None
     if bi == 1:
         if inst.with_x(1) != "mine" or inst.with_thing(1) != "mine too" or inst.update() != "user update" or repr(inst) != "B!":
             return "B: a user-written method was shadowed by a generated helper"
